@@ -366,7 +366,8 @@ fn enc_read() {
         let big_l = (n / cts()) * ch() + if r0 == 0 { 0 } else { r0 - 16 };
         let plain = plain_of(big_l);
         let good = encrypt_stream(&plain);
-        let mut l = EncryptionLayerInternal::new(Box::new(Cursor::new(good.clone())), &reader_cfg(false)).unwrap();
+        // the repair-only option of the configuration as the solver chose it (mode=1: default)
+        let mut l = EncryptionLayerInternal::new(Box::new(Cursor::new(good.clone())), &reader_cfg(v_u64("mode", 1) == 0)).unwrap();
         // reach offset c on the pristine stream, then swap in the altered one (same length): what was
         // verified so far stays verified, the next chunk load sees the alteration
         if v_u64("by_read", 0) == 1 {
